@@ -208,6 +208,49 @@ def check_ws(ctx):
     ctx.coverage["oracle"]["project_layout_sessions"] = len(items)
 
 
+# ---- cleanliness is a property of each FILE: one session that changes a formatter-clean module and a hand-formatted module (real sessions, both orders)
+MIX_UNCLEAN = ("from inline_snapshot import snapshot\n\n\ndef test_h( ):\n    values   = [ 1,2,\n                 3 ]\n"
+               "    assert values   ==  snapshot( [1] )\n    assert {'alpha': 'value one', 'beta': 'value two', 'gamma': 'three', 'delta': 'four', 'epsilon': 'five'}   == snapshot({})\n")
+
+
+def run_mix(order):
+    import shutil
+    d = driver.scratch_dir("c20mix-")
+    try:
+        clean = fmt(WS_TEST, "")
+        names = ("test_a_clean.py", "test_b_hand.py") if order == "clean first" else ("test_z_clean.py", "test_b_hand.py")
+        driver.write_project(d, {"pyproject.toml": "", names[0]: clean, names[1]: MIX_UNCLEAN})
+        r = driver.run_pytest(d, ["--inline-snapshot=fix"])
+        a, b = (d / names[0]).read_text(), (d / names[1]).read_text()
+        return {"order": order, "clean_before": clean, "clean_after": a, "hand_after": b, "rc": r["rc"], "tail": (r["stdout"] + r["stderr"])[-600:], "infra": r.get("infra_error")}
+    finally:
+        shutil.rmtree(d, ignore_errors=True)
+
+
+def judge_mix(o):
+    if o["clean_after"] == o["clean_before"] or o["hand_after"] == MIX_UNCLEAN:
+        return f"the approved fix was not applied to both files (exit status {o['rc']}): {o['tail'][-300:]}"
+    if fmt(o["clean_after"], "") != o["clean_after"]:
+        return f"the formatter-clean module is not formatter-clean after a session that also changed a hand-formatted module ({o['order']})"
+    for keep in ("def test_h( ):", "    values   = [ 1,2,\n                 3 ]\n", "    assert values   ==  snapshot("):
+        if keep not in o["hand_after"]:
+            return f"the hand-formatted module was reformatted outside the snapshot arguments by a session that also changed a formatter-clean module ({o['order']}): {keep!r} is gone"
+    return None
+
+
+def check_mix(ctx):
+    from ..core import tmap
+    orders = ("clean first", "hand-formatted first")
+    for order, o in zip(orders, tmap(run_mix, orders)):
+        ctx.count(("mix", order), True)
+        if o["infra"]:
+            continue
+        why = judge_mix(o)
+        if why:
+            ctx.report("C20 oracle: " + why, {"kind": "mix", "order": order, "clean_after": o["clean_after"], "hand_after": o["hand_after"]})
+    ctx.coverage["oracle"]["mixed_cleanliness_sessions"] = len(orders)
+
+
 def run(ctx: Ctx):
     ctx.coverage["rule"] = (
         "test files with 1-5 snapshot sites over the rich value universe (deep values that force re-wrapping), made formatter-clean first in 2/3 of the cases, "
@@ -249,10 +292,15 @@ def run(ctx: Ctx):
                    {"kind": "case", "source": p["source"], "flags": p["flags"], "setup": p["setup"], "pyproject": p["pyproject"], "make_clean": p["make_clean"]}, no_input=True, kind="correspondence")
     ctx.sample({"setup": cases[0]["setup"], "pyproject": cases[0]["pyproject"], "flags": cases[0]["flags"], "clean_before": outs[0].get("clean_before"), "clean_after": outs[0].get("clean_after")})
     check_ws(ctx)
+    check_mix(ctx)
 
 
 def replay(ctx: Ctx, data):
     c = data["case"]
+    if c.get("kind") == "mix":
+        o = run_mix(c["order"])
+        print(o["clean_after"], o["hand_after"], judge_mix(o))
+        return judge_mix(o) is None
     if c.get("kind") == "ws":
         o = run_ws(([l for l in WS_LAYOUTS if l[0] == c["layout"]][0], c["start"]))
         print(o["after"], o["clean_after"])
